@@ -304,7 +304,20 @@ fn impl_encode(data: &Data, type_name: &Ident, crate_path: &syn::Path) -> TokenS
 
 			// If the enum has no variants, we don't need to encode anything.
 			if variants.is_empty() {
-				return quote!();
+				// No variant is encodable (the enum is empty or all of its variants are skipped):
+				// encoding writes nothing. Without an overridden method the mutually recursive
+				// trait defaults of `Encode` would never terminate.
+				return quote! {
+					fn size_hint(&#self_) -> usize {
+						0_usize
+					}
+
+					fn encode_to<__CodecOutputEdqy: #crate_path::Output + ?::core::marker::Sized>(
+						&#self_,
+						_: &mut __CodecOutputEdqy
+					) {
+					}
+				};
 			}
 
 			let recurse = variants.iter().enumerate().map(|(i, f)| {
